@@ -105,6 +105,22 @@ def coqc(path, cwd=None, extra=(), timeout=1200):
     return sh(cmd, cwd=cwd or os.path.dirname(path), timeout=timeout)
 
 
+def run_case_files(files, name="M", timeout=3000):
+    """coqc each case file (in parallel); dict file -> (parsed list printed for `name`, or None if coqc failed; log)."""
+    from concurrent.futures import ThreadPoolExecutor
+
+    def one(f):
+        rc, out, dt = coqc(f, timeout=timeout)
+        if rc != 0:
+            return f, None, out
+        return f, parse_nlist(parse_print(out, name)), out
+    res = {}
+    with ThreadPoolExecutor(max_workers=NCPU) as ex:
+        for f, r, out in ex.map(one, files):
+            res[f] = (r, out)
+    return res
+
+
 def parse_print(out, name):
     """Value printed by `Print name.` for a definition computed with Eval vm_compute."""
     flat = re.sub(r"\s+", " ", out)
@@ -166,6 +182,14 @@ def harness_build(race=False, tags="verif"):
             pass
         out = os.path.join(WORK, "bin", "harness-race" if race else "harness")
         cmd = ["go", "build", "-tags", tags]
+        if os.path.realpath(REPO) != "/repo":
+            # scratch copy of the repository: same module file, other replace target
+            mf = os.path.join(WORK, "gomod", "go.mod")
+            os.makedirs(os.path.dirname(mf), exist_ok=True)
+            txt = open(os.path.join(HARNESS, "go.mod")).read().replace("=> /repo", "=> " + os.path.realpath(REPO))
+            open(mf, "w").write(txt)
+            shutil.copy(os.path.join(HARNESS, "go.sum"), os.path.join(WORK, "gomod", "go.sum"))
+            cmd += ["-modfile", mf]
         if race:
             cmd.append("-race")
         cmd += ["-o", out, "./cmd/harness"]
